@@ -52,12 +52,17 @@ func main() {
 			fmt.Println("CHECKER-FAILURE", err)
 			os.Exit(2)
 		}
-		b, _ := json.MarshalIndent(map[string]any{"inventory": inv, "sources": srcs, "files": files}, "", " ")
+		structs, err := norm.Structs(*repo)
+		if err != nil {
+			fmt.Println("CHECKER-FAILURE", err)
+			os.Exit(2)
+		}
+		b, _ := json.MarshalIndent(map[string]any{"inventory": inv, "sources": srcs, "files": files, "structs": structs}, "", " ")
 		fmt.Println(string(b))
 		return
 	}
 	if *shownorm {
-		res, err := norm.Normalise(*repo, nil, norm.Confirmed(), norm.ConfirmedSources())
+		res, err := norm.Normalise(*repo, nil, norm.Confirmed(), norm.ConfirmedSources(), norm.ConfirmedStructs())
 		if err != nil {
 			fmt.Println("CHECKER-FAILURE", err)
 			os.Exit(2)
@@ -133,7 +138,7 @@ func analyse(c *props.Check, tier, repo string, overlay map[string][]byte, seed 
 	}()
 	// bring new unexported helpers and renamed helpers back to the confirmed
 	// function inventory (identity on a tree that adds no function)
-	nres, nerr := norm.Normalise(repo, overlay, norm.Confirmed(), norm.ConfirmedSources())
+	nres, nerr := norm.Normalise(repo, overlay, norm.Confirmed(), norm.ConfirmedSources(), norm.ConfirmedStructs())
 	if nerr != nil {
 		return r, fmt.Errorf("normalisation: %v", nerr)
 	}
